@@ -11,7 +11,10 @@ import (
 	"os"
 	"strconv"
 	"strings"
+	"syscall"
 	"time"
+
+	"github.com/bits-and-blooms/bloom/v3"
 )
 
 type vpReplayVal struct {
@@ -127,7 +130,47 @@ func vpRunReplay(file string, h func()) (res string) {
 	return res
 }
 
+// vpCaptureOutput runs f with file descriptors 1 and 2 redirected to a scratch file and returns
+// what was written (the package-level loggers hold the original *os.File values, so the
+// redirection has to happen at descriptor level).
+func vpCaptureOutput(f func()) string {
+	tmp, err := os.CreateTemp("", "vpout")
+	if err != nil {
+		f()
+		return ""
+	}
+	defer os.Remove(tmp.Name())
+	save1, _ := syscall.Dup(1)
+	save2, _ := syscall.Dup(2)
+	syscall.Dup2(int(tmp.Fd()), 1)
+	syscall.Dup2(int(tmp.Fd()), 2)
+	func() {
+		defer func() {
+			syscall.Dup2(save1, 1)
+			syscall.Dup2(save2, 2)
+			syscall.Close(save1)
+			syscall.Close(save2)
+		}()
+		f()
+	}()
+	tmp.Close()
+	b, _ := os.ReadFile(tmp.Name())
+	return string(b)
+}
+
 func vpRunOne(vec []vpReplayVal, thorough bool, enable []string, kind string, h func()) (res string) {
+	if kind == "FORBIDDEN" {
+		// the counterexample is a path that writes to stdout/stderr: reproduce it by looking
+		inner := "passed"
+		out := vpCaptureOutput(func() { inner = vpRunOne(vec, thorough, enable, "ASSERT", h) })
+		if len(out) > 0 {
+			if len(out) > 120 {
+				out = out[:120]
+			}
+			return "violated: the engine wrote to stdout/stderr: " + strconv.Quote(out)
+		}
+		return inner
+	}
 	vpSetup(vec, thorough, enable)
 	defer func() {
 		if r := recover(); r != nil {
@@ -230,6 +273,23 @@ func vpYield()        {}
 // vpQuiesce blocks until every other goroutine of the harness is blocked or finished (exact under
 // the executor; natively approximated by a pause).
 func vpQuiesce() { time.Sleep(30 * time.Millisecond) }
+
+// vpRefreshView: under the executor strings are value snapshots; for a string made by unsafeString
+// this returns the text its backing buffer holds now, which is what the native string reads anyway.
+func vpRefreshView(s string) string { return s }
+
+// vpBloomMeetsEstimate: the filter has at least the bits and exactly the hash count that
+// bloom.EstimateParameters(n, p) prescribes. vpBloomAdded: key was added to f (natively: tests
+// positive). vpBloomAddCount: number of AddString calls (executor only; natively -1).
+func vpBloomMeetsEstimate(f *bloom.BloomFilter, n uint, p float64) bool {
+	if f == nil {
+		return false
+	}
+	m, k := bloom.EstimateParameters(n, p)
+	return f.Cap() >= m && f.K() == k
+}
+func vpBloomAdded(f *bloom.BloomFilter, key string) bool { return f != nil && f.TestString(key) }
+func vpBloomAddCount(f *bloom.BloomFilter) int            { return -1 }
 
 // vpSetClock pins the executor's clock model: 0 arbitrary elapsed times (default), 1 time.Since
 // reports a very long time, 2 time.Since reports zero. No effect natively.
